@@ -13,6 +13,9 @@ Letters ==
     \cup {L("set_mem_table", 0, r, {}, "", 0) : r \in {0, 4}}
     \cup {L("set_vring_addr", q, 0, {}, "", u) : q \in Idx, u \in {0, 1, 65535}}
     \cup {L("set_vring_addr", q, 1, {}, "", 0) : q \in {0, 1}}
+    \* n = 2: addresses inside the user range of a region whose ADD_MEM_REG was refused before the history began (it is not part
+    \* of the table: nothing may be translated through it)
+    \cup {L("set_vring_addr", q, 2, {}, "", 0) : q \in {0, 1}}
     \cup {L("set_features", 0, 0, b, "", 0) : b \in {{}, {29}, {30}, {29, 30}, {0, 26, 29, 30, 32}, {1}, {29, 31}}}
     \cup {L("set_protocol_features", 0, 0, b, "", 0) : b \in SUBSET {3, 18, 21}}
     \cup {L("brfd", 0, 0, {}, "", 0)}
